@@ -343,6 +343,30 @@ def force_import_into_market_of_profitable_firm(rng, spec):
     return True
 
 
+def force_household_and_capitalists_sharing_a_portfolio_rule(rng, spec):
+    """Zone 0's first country: household AND capitalists hold deposits and money through the weighting helper, both handing
+    it the SAME rule object at the moment they are declared (so who comes first depends on the declaration order)."""
+    z = spec['zones'][0]
+    g = z['gov']
+    if g['form'] == 'gold' or z['kind'] == 'federation':
+        return False
+    n = spec['maxtime'] + 3
+    g['deposits'] = g['money'] = True
+    g['r'] = [rng.choice([0.01, 0.02, 0.025, 0.04]) for _ in range(n)]
+    g.pop('bonds', None)
+    c = [c_ for c_ in z['countries'] if c_['role'] != 'central'][0]
+    c['firm'] = {'form': 'fixed', 'margin': rng.choice([0.1, 0.2])}
+    c['cap'] = dict(c.get('cap') or {'ai': 0.6, 'af': 0.2}, portfolio_share=True)
+    c['second_market'] = None
+    spec['imports'] = [i for i in spec['imports'] if i['market'] != c['key'] and i['supplier'] != c['key']]
+    hh = c['hh']
+    hh['portfolio'] = 'share_at_declaration'
+    hh['share'] = rng.choice([0.25, 0.6])
+    hh.pop('bond_share', None)
+    hh['F0'] = hh['F0'] or float(rng.randint(40, 120))
+    return True
+
+
 def ensure_cross_import(rng, spec):
     """At least one market supplied from another currency zone (needs >= 2 zones and the external sector)."""
     if len(spec['zones']) < 2 or not spec['ext'] or spec['imports']:
@@ -424,7 +448,7 @@ def build(spec, model=None, **kw):
 def _build(spec, model=None, holder=None, order_seed=None, codes=None, ckey_map=None, solve=True, ext_first=None,
           max_iter=3000, unused_ext=False, tol=None, order_perm=None, codes_after_first_country=False,
            query_zone=False, interleave_model=False, region_default_currency=False, run_via_steps=False,
-           mutate_returned_lists=False):
+           mutate_returned_lists=False, dup_country_attempts=False):
     """Build (and solve) the model described by spec with the REAL classes.
 
     order_seed: None = canonical declaration order; int = a random linear extension per country.
@@ -487,6 +511,14 @@ def _build(spec, model=None, holder=None, order_seed=None, codes=None, ckey_map=
                 country = cls(mod, ccode, 'Country ' + ccode, currency=z['cur'])
             b.countries[ck] = country
             b.zone_of[ck] = z['cur']
+            if dup_country_attempts:
+                # a get-or-create helper of the caller tries to create the country again (another currency); the package
+                # refuses the duplicate and the caller carries on with the same model
+                try:
+                    Country(mod, ccode, 'duplicate of ' + ccode, currency='ZZZ')
+                    b.dup_attempts_accepted = getattr(b, 'dup_attempts_accepted', 0) + 1
+                except Exception:
+                    b.dup_attempts_refused = getattr(b, 'dup_attempts_refused', 0) + 1
             steps = []
             if c['role'] in ('single', 'central'):
                 if g['form'] == 'consolidated':
@@ -530,13 +562,23 @@ def _build(spec, model=None, holder=None, order_seed=None, codes=None, ckey_map=
             if c['role'] in ('single', 'region'):
                 hh = c['hh']
                 hcls = Household if hh['form'] == 'Household' else HouseholdWithExpectations
-                steps.append(('HH', [], lambda country=country, ck=ck, hh=hh, hcls=hcls: S.__setitem__(
-                    (ck, 'HH'), hcls(country, code(ck, 'HH'), 'Household', alpha_income=hh['ai'], alpha_fin=hh['af'],
-                                     consumption_good_name=code(ck, 'GOOD'), labour_name=code(ck, 'LAB')))))
+                at_decl = hh.get('portfolio') == 'share_at_declaration'
+                rule_obj = {'DEP': repr(hh.get('share', 0.5))} if at_decl else None
+
+                def declare_hh(country=country, ck=ck, hh=hh, hcls=hcls, rule_obj=rule_obj):
+                    S[(ck, 'HH')] = hcls(country, code(ck, 'HH'), 'Household', alpha_income=hh['ai'], alpha_fin=hh['af'],
+                                         consumption_good_name=code(ck, 'GOOD'), labour_name=code(ck, 'LAB'))
+                    if rule_obj is not None:
+                        S[(ck, 'HH')].GenerateAssetWeighting(rule_obj, 'MON')
+                steps.append(('HH', [], declare_hh))
                 if c.get('cap'):
-                    steps.append(('CAP', [], lambda country=country, ck=ck, cp=c['cap']: S.__setitem__(
-                        (ck, 'CAP'), Capitalists(country, code(ck, 'CAP'), 'Capitalists', alpha_income=cp['ai'],
-                                                 alpha_fin=cp['af'], consumption_good_name=code(ck, 'GOOD')))))
+                    def declare_cap(country=country, ck=ck, cp=c['cap'], rule_obj=rule_obj):
+                        S[(ck, 'CAP')] = Capitalists(country, code(ck, 'CAP'), 'Capitalists', alpha_income=cp['ai'],
+                                                     alpha_fin=cp['af'], consumption_good_name=code(ck, 'GOOD'))
+                        if rule_obj is not None and cp.get('portfolio_share'):
+                            S[(ck, 'CAP')].GenerateAssetWeighting(rule_obj, 'MON')
+                            b.weightings_reused += 1
+                    steps.append(('CAP', [], declare_cap))
                 steps.append(('LAB', [], lambda country=country, ck=ck: S.__setitem__(
                     (ck, 'LAB'), Market(country, code(ck, 'LAB'), 'Labour market'))))
                 steps.append(('GOOD', [], lambda country=country, ck=ck: S.__setitem__(
@@ -653,7 +695,9 @@ def _build(spec, model=None, holder=None, order_seed=None, codes=None, ckey_map=
             if hs['portfolio']:
                 dep = S[(gkey, 'DEP')]
                 bs = hs.get('bond_share') if g.get('bonds') else None
-                if hs['portfolio'] == 'share' and bs:
+                if hs['portfolio'] == 'share_at_declaration':
+                    pass        # declared together with the sector (see the declaration steps)
+                elif hs['portfolio'] == 'share' and bs:
                     # three assets through the library's weighting helper: deposits, bonds, money as the residual
                     hh.GenerateAssetWeighting({'DEP': repr(hs['share'] * 0.5), 'BOND': repr(bs)}, 'MON')
                 elif hs['portfolio'] == 'share':
